@@ -664,12 +664,28 @@ def remove_tensor(expr: e.Expr, t_name: str) -> dict:
         #   sum convention -> only if target indices have been set manually
         if term.provided_target_idx is not None:
             term.set_target_idx(term.provided_target_idx + indices)
+        elif any(n for s, n in term.terms[0]._idx_counter
+                 if s in indices):
+            # a tensor index occurs more than once in the remaining term
+            # (e.g. another occurence of the tensor or a denominator holds the
+            # same indices) -> the einstein sum convention would treat the
+            # index as contracted: V^ij_ab V^ij_ab -> V^ij_ab
+            term.set_target_idx(term.terms[0].target + tuple(indices))
         # - apply the symmetry of the removed tensor to the term
         symmetrized_term = term.copy()
         for perms, sym_factor in tensor_sym.items():
             symmetrized_term += term.copy().permute(*perms) * sym_factor
         # - reduce the number of terms as much as possible
         return simplify(symmetrized_term)
+
+    def unify_target_idx(collected: e.Expr, contrib: e.Expr) -> None:
+        # The target indices of a contribution are only set explicitly if the
+        # einstein sum convention is not sufficient to determine them.
+        # -> ensure that contributions to the same block can be added
+        if collected.provided_target_idx is None:
+            collected.set_target_idx(contrib.provided_target_idx)
+        elif contrib.provided_target_idx is None:
+            contrib.set_target_idx(collected.provided_target_idx)
 
     def process_term(term: e.Term, t_name):
         # print(f"\nProcessing term {term}")
@@ -729,6 +745,9 @@ def remove_tensor(expr: e.Expr, t_name: str) -> dict:
                     key = tuple(sorted(t_block + list(blocks)))
                     if key not in ret:
                         ret[key] = 0
+                    elif (ret[key].provided_target_idx !=
+                            contrib.provided_target_idx):
+                        unify_target_idx(ret[key], contrib)
                     ret[key] += contrib
             return ret
 
@@ -743,5 +762,8 @@ def remove_tensor(expr: e.Expr, t_name: str) -> dict:
         for key, contrib in process_term(term, t_name).items():
             if key not in ret:
                 ret[key] = 0
+            elif (ret[key].provided_target_idx !=
+                    contrib.provided_target_idx):
+                unify_target_idx(ret[key], contrib)
             ret[key] += contrib
     return ret
